@@ -35,7 +35,7 @@ def gen(rng, tier):
     n = 150 if tier == "quick" else 2500
     cases = []
     for k in range(n):
-        inst, info = GI.rand_instance(rng, max_deg=3)
+        inst, info = GI.rand_instance(rng, max_deg=3, rich=True)
         pinst, params = to_parametric(rng, inst, info)
         theta = [[p, f64(G.dyadic(rng, 4, 1))] for p in params]
         rng.shuffle(theta)
